@@ -95,8 +95,8 @@ fn random_setter(rng: &mut Rng) -> Setter {
     match rng.below(16) {
         0 | 1 | 2 => Setter::Header(rng.pick(&names).to_string(), rng.pick(&values).to_vec()),
         3 | 4 | 5 => Setter::HeaderAppend(rng.pick(&names).to_string(), rng.pick(&values).to_vec()),
-        6 => Setter::MaxHeaders(*rng.pick(&[1usize, 3, 10, 100])),
-        7 => Setter::MaxRedirections(*rng.pick(&[0u32, 1, 2, 5])),
+        6 => Setter::MaxHeaders(*rng.pick(&[1usize, 3, 10, 100, 100, 100_000, usize::MAX])),
+        7 => Setter::MaxRedirections(*rng.pick(&[0u32, 1, 2, 5, 5, u32::MAX, 1 << 31])),
         8 => Setter::Follow(rng.bool()),
         9 => Setter::Connect(*rng.pick(&[1000u64, 2000, 30_000])),
         10 => Setter::Read(*rng.pick(&[1500u64, 2500, 30_000])),
@@ -321,11 +321,24 @@ fn send_with_probe(rb: RequestBuilder, ro_m: &Settings, headers: &BTreeMap<Strin
         }
         1 => {
             counters.push("probe_redirects");
-            let world = World::install(|_, _, _| Answer::Script(vec![Step::Data(b"HTTP/1.1 302 Found\r\nLocation: /c16\r\n\r\n".to_vec())], WriteFaults::default()));
+            // a budget far above any real chain ("no limit" spellings such as u32::MAX) is probed with
+            // a chain of 7 redirects that ends: all of it is followed
+            let unlimited = ro_m.follow && ro_m.max_redirections > 1000;
+            let world = World::install(move |_, idx, _| {
+                let resp: &[u8] = if unlimited && idx >= 7 { c07::OK_RESPONSE } else { b"HTTP/1.1 302 Found\r\nLocation: /c16\r\n\r\n" };
+                Answer::Script(vec![Step::Data(resp.to_vec())], WriteFaults::default())
+            });
             let res = rb.send();
-            let want = if ro_m.follow { ro_m.max_redirections as usize + 1 } else { 1 };
+            let want = if unlimited { 8 } else if ro_m.follow { ro_m.max_redirections as usize + 1 } else { 1 };
             if world.dial_count() != want {
                 out.push(("wire:redirect-bound-differs".into(), descr(&format!("{} requests sent, the request's settings imply {want}", world.dial_count()))));
+            }
+            if unlimited {
+                counters.push("probe_redirects_with_huge_budget");
+                if !matches!(&res, Ok(r) if r.status().as_u16() == 200) {
+                    out.push(("wire:redirect-outcome-differs".into(), descr(&format!("a chain of 7 redirects under a budget of {} gave {:?}", ro_m.max_redirections, res.as_ref().map(|r| r.status().as_u16()).map_err(|e| format!("{e:?}"))))));
+                }
+                return;
             }
             match (&res, ro_m.follow) {
                 (Ok(r), false) if r.status().as_u16() == 302 => {}
@@ -335,7 +348,8 @@ fn send_with_probe(rb: RequestBuilder, ro_m: &Settings, headers: &BTreeMap<Strin
         }
         2 => {
             counters.push("probe_header_limit");
-            let n = ro_m.max_headers + (probe / 4 % 2) as usize;
+            // (limits far above what can be served are probed with a head that is within them)
+            let n = if ro_m.max_headers > 1000 { 40 } else { ro_m.max_headers + (probe / 4 % 2) as usize };
             let mut wire = b"HTTP/1.1 200 OK\r\n".to_vec();
             for i in 0..n - 1 {
                 wire.extend_from_slice(format!("X-H{i}: {i}\r\n").as_bytes());
